@@ -10,6 +10,7 @@ Provides ``http_connect`` context manager, ``HttpStreamSession``,
 from __future__ import annotations
 
 import contextlib
+import hashlib
 import json
 import logging
 import re
@@ -208,7 +209,11 @@ def _build_pointer_request_body(original_body: bytes, location_url: str) -> byte
     """
     reader = ipc.open_stream(BytesIO(original_body))
     batch, custom_metadata = reader.read_next_batch_with_custom_metadata()
-    pointer_batch, loc_md = make_external_location_batch(batch.schema, location_url)
+    # The digest of the uploaded bytes travels on the pointer so the server verifies
+    # what it fetches (``resolve_external_location``) before dispatching the call.
+    pointer_batch, loc_md = make_external_location_batch(
+        batch.schema, location_url, sha256=hashlib.sha256(original_body).hexdigest()
+    )
     merged = merge_metadata(custom_metadata, loc_md)
     buf = BytesIO()
     with new_ipc_stream(buf, batch.schema) as writer:
